@@ -272,8 +272,11 @@ var o8Except = map[string]string{
 	"tensor.(*Dense).setOldAP": "ownership hand-over helper: callers are checked (their argument must be a fresh AP)",
 }
 
-func O8(rc *RC) {
-	rc.S.Declare("O8", "unique owner of pool-managed metadata: an AP (or its shape/strides slices, or transposeWith) read out of an object is stored elsewhere only as a move or after Clone; no exported function returns such an alias; no local alias is zeroed into the pool", 3)
+func O8(rc *RC) { O8f(rc, nil, 3) }
+
+// O8f restricts the report to functions selected by only.
+func O8f(rc *RC, only func(fnKey string) bool, floor int) {
+	rc.S.Declare("O8", "unique owner of pool-managed metadata: an AP (or its shape/strides slices, or transposeWith) read out of an object is stored elsewhere only as a move or after Clone; no exported function returns such an alias; no local alias is zeroed into the pool", floor)
 	p := rc.P
 	p.SSA()
 	type apLoad struct {
@@ -348,6 +351,9 @@ func O8(rc *RC) {
 	// obligations
 	for _, fn := range fns {
 		fkey := oFnKey(fn)
+		if only != nil && !only(fkey) {
+			continue
+		}
 		if why, ok := o8Except[fkey]; ok {
 			rc.S.Except("O8 "+fkey, why)
 			continue
@@ -594,3 +600,117 @@ func guardedNeq(fn *ssa.Function, b *ssa.BasicBlock, x *ssa.Parameter, other str
 }
 
 var _ = types.Typ
+
+// ---------------------------------------------------------------------------------------
+// V1: storage provenance of copying constructors. The tensor returned by Clone, Materialize,
+// SafeT (and through them the api forms T/Transpose/Copy-into-fresh) must own fresh storage:
+// nothing loaded from the source's array / Header / Raw / mask may be stored into the
+// result's storage fields, and element data must be copied by a copy primitive.
+var v1Copying = []string{"tensor.(*Dense).Clone", "tensor.(*Dense).Materialize", "tensor.(*Dense).SafeT"}
+
+func V1(rc *RC) {
+	rc.S.Declare("V1", "storage provenance: copying constructors (Clone, Materialize, SafeT) give the result freshly allocated storage, never a value loaded from the source's array/Header/Raw/mask, and copy the elements with a copy primitive", 3)
+	p := rc.P
+	p.SSA()
+	storageField := func(fa *ssa.FieldAddr) (string, bool) {
+		pt, ok := fa.X.Type().Underlying().(*types.Pointer)
+		if !ok {
+			return "", false
+		}
+		st, ok := pt.Elem().Underlying().(*types.Struct)
+		if !ok {
+			return "", false
+		}
+		n := st.Field(fa.Field).Name()
+		switch n {
+		case "array", "Header", "Raw", "mask":
+			return n, true
+		}
+		return "", false
+	}
+	var fromStorage func(v ssa.Value, depth int) (string, bool)
+	fromStorage = func(v ssa.Value, depth int) (string, bool) {
+		if depth > 8 {
+			return "", false
+		}
+		switch x := v.(type) {
+		case *ssa.UnOp:
+			if fa, ok := x.X.(*ssa.FieldAddr); ok {
+				if n, ok := storageField(fa); ok {
+					if _, isParam := baseObject(fa).(*ssa.Parameter); isParam {
+						return n, true
+					}
+				}
+			}
+		case *ssa.Slice:
+			return fromStorage(x.X, depth+1)
+		case *ssa.Phi:
+			for _, e := range x.Edges {
+				if n, ok := fromStorage(e, depth+1); ok {
+					return n, true
+				}
+			}
+		case *ssa.Call:
+			if f := x.Common().StaticCallee(); f != nil && (f.Name() == "Mask" || f.Name() == "hdr" || f.Name() == "arrPtr" || f.Name() == "arr") && len(x.Common().Args) == 1 {
+				if _, isParam := x.Common().Args[0].(*ssa.Parameter); isParam {
+					return f.Name() + "()", true
+				}
+			}
+		}
+		return "", false
+	}
+	for _, key := range v1Copying {
+		fi := p.Func(key)
+		if fi == nil {
+			rc.S.Undec("V1", key, "-", "unresolved anchor")
+			continue
+		}
+		fn := p.SSAFunc(fi)
+		pos := p.Pos(fi.Decl.Pos())
+		var bad []string
+		copies, allocs := 0, 0
+		for _, b := range fn.Blocks {
+			for _, ins := range b.Instrs {
+				switch x := ins.(type) {
+				case *ssa.Store:
+					if fa, ok := x.Addr.(*ssa.FieldAddr); ok {
+						if n, ok := storageField(fa); ok {
+							if _, isParam := baseObject(fa).(*ssa.Parameter); !isParam {
+								if src, shared := fromStorage(x.Val, 0); shared {
+									bad = append(bad, fmt.Sprintf("the result's %s is assigned the source's %s at %s: copy and source share storage", n, src, p.Pos(x.Pos())))
+								}
+							}
+						}
+					}
+				case ssa.CallInstruction:
+					if f := x.Common().StaticCallee(); f != nil {
+						switch f.Name() {
+						case "copyDense", "copyDenseIter", "copyDenseSliced", "copyArray":
+							copies++
+						case "makeArray", "recycledDense", "NewDense", "New", "malloc":
+							allocs++
+						case "SetMask", "setParentTensor":
+							if f.Name() == "SetMask" && len(x.Common().Args) == 2 {
+								if src, shared := fromStorage(x.Common().Args[1], 0); shared {
+									bad = append(bad, "the result adopts the source's "+src+" as its mask")
+								}
+							}
+						}
+					}
+				}
+			}
+		}
+		// Materialize returns the receiver itself when nothing is to materialise: allowed by L1
+		if copies == 0 {
+			bad = append(bad, "no copy primitive (copyDense/copyDenseIter) moves the elements into the result")
+		}
+		if allocs == 0 {
+			bad = append(bad, "the result's storage is not allocated in this function")
+		}
+		if len(bad) > 0 {
+			rc.S.Viol("V1", key, pos, strings.Join(bad, "; ")).Sig = stripPos(strings.Join(bad, "; "))
+		} else {
+			rc.S.Ok("V1", key, pos, fmt.Sprintf("%d allocation(s), %d copy primitive call(s), no storage field shared", allocs, copies))
+		}
+	}
+}
